@@ -285,6 +285,10 @@ static int gen_frame(struct vf_rng *r, const struct cfg *c, unsigned tx_services
 				case 2: keep = vf_chance(r, 1, 6); break;
 				default: keep = 0; break;
 				}
+				/* Teletext on the caption line of a requested 525 caption service runs into the
+				 * known quirk Q-cc525-claims-any-signal-on-its-line: visit it, but rarely */
+				if (s->kind == K_TTX && c->scanning == 525 && ((l == 21 && (c->req & VBI_SLICED_CAPTION_525_F1)) || (l == 284 && (c->req & VBI_SLICED_CAPTION_525_F2)))
+				    && !vf_chance(r, 1, 8)) keep = 0;
 				/* a shared line (22 / 21) goes to either claimant */
 				if (s->kind != K_TTX && c->nset > 1 && vf_chance(r, 1, 6)) keep = 0;
 				if (!keep) continue;
@@ -374,6 +378,101 @@ static void fail(const struct cfg *c, const char *api, int frame, const char *ke
 	vf_fail(key, "api=%s frame=%d: %s | %s", api, frame, b, cfg_desc(c));
 }
 
+/* ---- named quirks (DESIGN.md section 2 item 5) ----
+ * A line failure is first established by the strict oracle.  Then the same
+ * frame is transmitted again under ONE changed condition and decoded by a fresh
+ * decoder; only if the failure is reproducible with a fresh decoder and
+ * disappears exactly under the named condition is it reported under the
+ * quirk's own key.  Everything else keeps the generic key. */
+
+static const struct txline *g_tx;
+static int g_ntx;
+
+static int render(struct vf_rng *r, const struct cfg *c, const struct txline *tx, int n, uint8_t *raw, size_t raw_size);
+
+static int try_decode(const struct cfg *c2, unsigned services, const struct txline *t)
+{
+	struct vf_rng lr;
+	int scan = c2->sp.count[0] + c2->sp.count[1], n, i, ok = 0;
+	size_t sz = (size_t)scan * (size_t)c2->sp.bytes_per_line;
+	uint8_t *raw = malloc(sz);
+	vbi_sliced *out = malloc(sizeof *out * (size_t)scan);
+	vbi3_raw_decoder *rd;
+	vf_rng_seed(&lr, vf_seed ^ 0x5151, (uint64_t)vf_case);
+	vf_phase("diagnosis");
+	if (raw && out && render(&lr, c2, g_tx, g_ntx, raw, sz) && (rd = vbi3_raw_decoder_new(&c2->sp))) {
+		vbi3_raw_decoder_add_services(rd, services, c2->strict);
+		n = (int)vbi3_raw_decoder_decode(rd, out, (unsigned)scan, raw);
+		if (c2->sp.synchronous) {
+			for (i = 0; i < n; i++)
+				if ((int)out[i].line == t->line)
+					ok = (out[i].id & t->s->id) && !(out[i].id & ~t->s->family) && payload_equal(t->s, t->data, out[i].data);
+		} else if (n == g_ntx) {
+			i = (int)(t - g_tx);
+			ok = (out[i].id & t->s->id) && !(out[i].id & ~t->s->family) && payload_equal(t->s, t->data, out[i].data);
+		}
+		vbi3_raw_decoder_delete(rd);
+	}
+	free(raw);
+	free(out);
+	return ok;
+}
+
+static const char *explain(const struct cfg *c, const struct txline *t, const char *key)
+{
+	static long cache_case = -1;
+	static unsigned cache_id[8];
+	static const char *cache_key[8];
+	static int ncache;
+	const char *q = NULL;
+	double floor_rate = (t->s->kind == K_TTX) ? 13.5e6 : 2 * t->s->clock;
+	int i;
+	if (!c->judged || !g_tx) return key;
+	if (cache_case != vf_case) { cache_case = vf_case; ncache = 0; }
+	for (i = 0; i < ncache; i++) if (cache_id[i] == t->s->id) return cache_key[i] ? cache_key[i] : key;
+
+	if (t->s->kind == K_TTX && c->scanning == 525 && ((t->line == 21 && (c->req & VBI_SLICED_CAPTION_525_F1)) || (t->line == 284 && (c->req & VBI_SLICED_CAPTION_525_F2)))) {
+		/* Closed Caption 525 is identified by its line number and two start bits only */
+		/* (the caption slicer is tried first once it has found caption on that line, so a fresh decoder need not reproduce it) */
+		if (try_decode(c, c->req & ~(unsigned)VBI_SLICED_CAPTION_525, t))
+			q = "model:C04:Q-cc525-claims-any-signal-on-its-line";
+		/* not cached: applies to this line only */
+		if (q) vf_count("quirk_cc525_claims_line", 1);
+		return q ? q : key;
+	}
+	if (t->s->kind == K_TTX && c->scanning == 625 && ((t->line == 22 && (c->req & VBI_SLICED_CAPTION_625_F1)) || (t->line == 335 && (c->req & VBI_SLICED_CAPTION_625_F2)))
+	    && 0 == strcmp(key, "model:C04:wrong-service")) {
+		/* a Teletext payload that happens to contain the caption run-in and start bits at the caption bit rate */
+		if (try_decode(c, c->req & ~(unsigned)VBI_SLICED_CAPTION_625, t)) {
+			vf_count("quirk_cc625_false_match", 1);
+			return "model:C04:Q-cc625-false-match-on-teletext-payload";
+		}
+		return key;
+	}
+	if (!try_decode(c, c->req, t)) {          /* reproducible with a fresh decoder */
+		if (!q && c->trail_us < 0.5) {
+			struct cfg c2 = *c;
+			c2.spl += (int)ceil(0.6e-6 * c->rate);
+			if (c04_is_422(c2.sp.sampling_format) && (c2.spl & 1)) c2.spl++;
+			c2.sp.bytes_per_line = c2.spl * c2.bpp;
+			if (try_decode(&c2, c->req, t)) { q = "model:C04:Q-needs-trailing-margin"; vf_count("quirk_needs_trailing_margin", 1); }
+		}
+		if (!q && c->rate < 1.06 * floor_rate) {
+			struct cfg c2 = *c;
+			double r2 = floor(c->rate * 1.12), t0 = c->sp.offset / c->rate, t1 = (c->sp.offset + c->spl) / c->rate;
+			c2.rate = r2;
+			c2.sp.sampling_rate = (int)r2;
+			c2.sp.offset = (int)floor(t0 * r2);
+			c2.spl = (int)ceil(t1 * r2) - c2.sp.offset;
+			if (c04_is_422(c2.sp.sampling_format) && (c2.spl & 1)) c2.spl++;
+			c2.sp.bytes_per_line = c2.spl * c2.bpp;
+			if (try_decode(&c2, c->req, t)) { q = "model:C04:Q-marginal-sampling-rate"; vf_count("quirk_marginal_sampling_rate", 1); }
+		}
+	}
+	if (ncache < 8) { cache_id[ncache] = t->s->id; cache_key[ncache] = q; ncache++; }
+	return q ? q : key;
+}
+
 /* out[0..n) against the transmitted lines; requested = services the decoder currently has */
 static void judge(const struct cfg *c, const char *api, int frame, unsigned requested,
 		  const struct txline *tx, int ntx, const vbi_sliced *out, int n, int max_lines)
@@ -437,20 +536,20 @@ static void judge(const struct cfg *c, const char *api, int frame, unsigned requ
 				continue;   /* transmitted but currently not requested: not judged */
 			}
 			if (!(out[i].id & tx[j].s->id) || (out[i].id & ~tx[j].s->family)) {
-				fail(c, api, frame, "model:C04:wrong-service", "line %d carries %s (0x%x) but was identified as 0x%x (%s payload)",
+				fail(c, api, frame, explain(c, &tx[j], "model:C04:wrong-service"), "line %d carries %s (0x%x) but was identified as 0x%x (%s payload)",
 				     tx[j].line, tx[j].s->name, tx[j].s->id, out[i].id, pclass_name(tx[j].pclass));
 				return;
 			}
 			if (!payload_equal(tx[j].s, tx[j].data, out[i].data)) {
 				int nb = (tx[j].s->payload_bits + 7) / 8;
-				fail(c, api, frame, "model:C04:payload-mismatch", "%s line %d (%s payload): sent %s got %s",
+				fail(c, api, frame, explain(c, &tx[j], "model:C04:payload-mismatch"), "%s line %d (%s payload): sent %s got %s",
 				     tx[j].s->name, tx[j].line, pclass_name(tx[j].pclass), vf_hex(tx[j].data, (size_t)nb), vf_hex(out[i].data, (size_t)nb));
 				return;
 			}
 		}
 		for (j = 0; j < ntx; j++)
 			if (!matched[j] && (tx[j].s->id & requested)) {
-				fail(c, api, frame, "model:C04:missing-line", "%s on line %d (%s payload %s) produced no record; %d of %d requested lines decoded",
+				fail(c, api, frame, explain(c, &tx[j], "model:C04:missing-line"), "%s on line %d (%s payload %s) produced no record; %d of %d requested lines decoded",
 				     tx[j].s->name, tx[j].line, pclass_name(tx[j].pclass), vf_hex(tx[j].data, 8), n, ntx);
 				return;
 			}
@@ -464,22 +563,22 @@ static void judge(const struct cfg *c, const char *api, int frame, unsigned requ
 			}
 		for (i = 0; i < m; i++) {
 			if (!(out[i].id & tx[i].s->id) || (out[i].id & ~tx[i].s->family)) {
-				fail(c, api, frame, "model:C04:wrong-service", "record %d: %s sent, identified as 0x%x", i, tx[i].s->name, out[i].id);
+				fail(c, api, frame, explain(c, &tx[i], "model:C04:wrong-service"), "record %d: %s sent, identified as 0x%x", i, tx[i].s->name, out[i].id);
 				return;
 			}
 			if (!payload_equal(tx[i].s, tx[i].data, out[i].data)) {
 				/* is it the next line's payload? then a line is missing, not a bit error */
 				int nb = (tx[i].s->payload_bits + 7) / 8;
 				if (n < ntx)
-					fail(c, api, frame, "model:C04:missing-line", "%d records for %d transmitted lines (first difference at record %d, %s line %d)", n, ntx, i, tx[i].s->name, tx[i].line);
+					fail(c, api, frame, explain(c, &tx[i], "model:C04:missing-line"), "%d records for %d transmitted lines (first difference at record %d, %s line %d)", n, ntx, i, tx[i].s->name, tx[i].line);
 				else
-					fail(c, api, frame, "model:C04:payload-mismatch", "%s line %d (%s payload): sent %s got %s",
+					fail(c, api, frame, explain(c, &tx[i], "model:C04:payload-mismatch"), "%s line %d (%s payload): sent %s got %s",
 					     tx[i].s->name, tx[i].line, pclass_name(tx[i].pclass), vf_hex(tx[i].data, (size_t)nb), vf_hex(out[i].data, (size_t)nb));
 				return;
 			}
 		}
 		if (n < ntx)
-			fail(c, api, frame, "model:C04:missing-line", "%d records for %d transmitted lines; first missing %s line %d", n, ntx, tx[n].s->name, tx[n].line);
+			fail(c, api, frame, explain(c, &tx[n], "model:C04:missing-line"), "%d records for %d transmitted lines; first missing %s line %d", n, ntx, tx[n].s->name, tx[n].line);
 		else if (n > ntx)
 			fail(c, api, frame, "model:C04:spurious-record", "%d records for %d transmitted lines; extra id 0x%x data %s", n, ntx, out[ntx].id, vf_hex(out[ntx].data, 8));
 	}
@@ -534,11 +633,11 @@ static void bit_slicers(const struct cfg *c, int frame, const struct txline *t, 
 				if (ok) fail(c, "vbi3_bit_slicer", frame, "model:C04:spurious-record", "blank line sliced as %s", t->s->name);
 				for (k = 0; k < (int)sizeof buf; k++) if (buf[k] != CANARY) { fail(c, "vbi3_bit_slicer", frame, "model:C04:wrote-beyond-count", "buffer modified although the slicer reported failure"); break; }
 			} else if (!ok) {
-				if (c->judged) fail(c, "vbi3_bit_slicer", frame, "model:C04:missing-line", "%s line %d (%s payload %s) not recognised", t->s->name, t->line, pclass_name(t->pclass), vf_hex(t->data, 8));
+				if (c->judged) fail(c, "vbi3_bit_slicer", frame, explain(c, t, "model:C04:missing-line"), "%s line %d (%s payload %s) not recognised", t->s->name, t->line, pclass_name(t->pclass), vf_hex(t->data, 8));
 			} else {
 				vf_count("bitslice_new_ok", 1);
 				if (c->judged && !payload_equal(t->s, t->data, buf))
-					fail(c, "vbi3_bit_slicer", frame, "model:C04:payload-mismatch", "%s line %d (%s payload): sent %s got %s", t->s->name, t->line, pclass_name(t->pclass), vf_hex(t->data, (size_t)nb), vf_hex(buf, (size_t)nb));
+					fail(c, "vbi3_bit_slicer", frame, explain(c, t, "model:C04:payload-mismatch"), "%s line %d (%s payload): sent %s got %s", t->s->name, t->line, pclass_name(t->pclass), vf_hex(t->data, (size_t)nb), vf_hex(buf, (size_t)nb));
 				if (buf[nb] != CANARY)
 					fail(c, "vbi3_bit_slicer", frame, "model:C04:wrote-beyond-array", "byte after the %d payload bytes modified", nb);
 			}
@@ -555,9 +654,9 @@ static void bit_slicers(const struct cfg *c, int frame, const struct txline *t, 
 				if (vbi3_bit_slicer_slice_with_points(bs, buf2, (unsigned)nb, pts, &npts, 512, line)) {
 					vf_count("bitslice_points_ok", 1);
 					if (c->judged && !payload_equal(t->s, t->data, buf2))
-						fail(c, "vbi3_bit_slicer_with_points", frame, "model:C04:payload-mismatch", "%s line %d: sent %s got %s", t->s->name, t->line, vf_hex(t->data, (size_t)nb), vf_hex(buf2, (size_t)nb));
+						fail(c, "vbi3_bit_slicer_with_points", frame, explain(c, t, "model:C04:payload-mismatch"), "%s line %d: sent %s got %s", t->s->name, t->line, vf_hex(t->data, (size_t)nb), vf_hex(buf2, (size_t)nb));
 				} else if (c->judged)
-					fail(c, "vbi3_bit_slicer_with_points", frame, "model:C04:missing-line", "%s line %d not recognised", t->s->name, t->line);
+					fail(c, "vbi3_bit_slicer_with_points", frame, explain(c, t, "model:C04:missing-line"), "%s line %d not recognised", t->s->name, t->line);
 			}
 		}
 		vbi3_bit_slicer_delete(bs);
@@ -576,11 +675,11 @@ static void bit_slicers(const struct cfg *c, int frame, const struct txline *t, 
 		if (blank) {
 			if (ok) fail(c, "vbi_bit_slicer", frame, "model:C04:spurious-record", "blank line sliced as %s", t->s->name);
 		} else if (!ok) {
-			if (c->judged) fail(c, "vbi_bit_slicer", frame, "model:C04:missing-line", "%s line %d (%s payload %s) not recognised", t->s->name, t->line, pclass_name(t->pclass), vf_hex(t->data, 8));
+			if (c->judged) fail(c, "vbi_bit_slicer", frame, explain(c, t, "model:C04:missing-line"), "%s line %d (%s payload %s) not recognised", t->s->name, t->line, pclass_name(t->pclass), vf_hex(t->data, 8));
 		} else {
 			vf_count("bitslice_old_ok", 1);
 			if (c->judged && !payload_equal(t->s, t->data, buf))
-				fail(c, "vbi_bit_slicer", frame, "model:C04:payload-mismatch", "%s line %d (%s payload): sent %s got %s", t->s->name, t->line, pclass_name(t->pclass), vf_hex(t->data, (size_t)nb), vf_hex(buf, (size_t)nb));
+				fail(c, "vbi_bit_slicer", frame, explain(c, t, "model:C04:payload-mismatch"), "%s line %d (%s payload): sent %s got %s", t->s->name, t->line, pclass_name(t->pclass), vf_hex(t->data, (size_t)nb), vf_hex(buf, (size_t)nb));
 			if (buf[nb] != CANARY)
 				fail(c, "vbi_bit_slicer", frame, "model:C04:wrote-beyond-array", "byte after the %d payload bytes modified", nb);
 		}
@@ -615,6 +714,7 @@ static int run_case(struct vf_rng *r, long idx)
 	(void)idx;
 
 	n_fail_this_case = 0;
+	g_tx = NULL; g_ntx = 0;
 	gen_cfg(r, &c);
 	scan_lines = c.sp.count[0] + c.sp.count[1];
 	raw_size = (size_t)scan_lines * (size_t)c.sp.bytes_per_line;
@@ -682,6 +782,7 @@ static int run_case(struct vf_rng *r, long idx)
 			vf_fail("harness:C04:generator-refused", "_vbi_raw_*_image returned FALSE | %s", cfg_desc(&c));
 			break;
 		}
+		g_tx = tx; g_ntx = ntx;
 		vf_count("frames", 1);
 		vf_count("lines_transmitted", ntx);
 		vf_count("lines_blank", scan_lines - ntx);
